@@ -314,3 +314,555 @@ for S in ("short_norm", "short_raw"):
       bound="capacity class: '3::' + every byte string of <= 37 bytes (block hash 2 of the short type reaches and "
             "exceeds 32 symbols, raw and collapsed)",
       enc=["FuzzyHashData::from_bytes_with_last_index"])
+
+
+# ------------------------------------------------------------------------------------
+# Generator: C01, C03, C12, C13 (inductive step / digest per concrete active range)
+# ------------------------------------------------------------------------------------
+GEN_ENC = ["Generator::update_by_byte (generator_update_template!)", "BlockHashContext::reset",
+           "PartialFNVHash::update_by_byte/value", "RollingHash::update_by_byte/value"]
+ASSUME_GEN = ["pre-state: arbitrary generator satisfying the representation invariant inv(G) for the concrete "
+              "active range (harness/overlay/.../generate/tests.rs); inv is itself re-established by every query",
+              "ghost eventual size F >= input_size; a hint, if present, equals F; eliminated levels are justified "
+              "(192*2^(start-1) < F and level start has >= 32 pieces) -- all three are re-established by the step",
+              "the rolling hash is an opaque component here: its post-update value is handed to the pure step; "
+              "that it is the stated function of the last 7 bytes is C19 (SMT obligation)",
+              "reference model S* = harness/spec/ctph.rs (pure CTPH), validated natively against the repository's "
+              "libfuzzy-generated vectors by dev/validate_model"]
+ALL_PAIRS = [(s, e) for s in range(31) for e in range(s + 1, 32)]
+BOUNDARY_PAIRS = [(0, 1), (0, 2), (0, 31), (29, 31), (30, 31), (3, 6)]
+
+
+def gen_q(kind, st, en, prop, tiers, cap, cost, extra_name=""):
+    name = "%s_%d_%d" % (kind, st, en)
+    shapes = {
+        "c01_step": ("inductive step", "one byte (update_by_byte) from ANY invariant state with active range "
+                     "[%d,%d): invariant and simulation with pure CTPH re-established" % (st, en)),
+        "c01_digest_trunc": ("inductive step", "finalize() from ANY invariant end state with active range [%d,%d) == "
+                             "pure digest (truncated form)" % (st, en)),
+        "c01_digest_long": ("inductive step", "finalize_without_truncation() and finalize_raw::<false,64,32>() from ANY "
+                            "invariant end state with active range [%d,%d) == pure digest / OutputOverflow" % (st, en)),
+        "c03_two_slice": ("inductive step", "update(&[c1,c2]) (counter runs ahead) from ANY invariant state [%d,%d)" % (st, en)),
+        "c03_two_iter": ("inductive step", "update_by_iter over two bytes from ANY invariant state [%d,%d)" % (st, en)),
+        "c03_two_addslice": ("inductive step", "+= &[u8] of two bytes from ANY invariant state [%d,%d)" % (st, en)),
+        "c03_two_addarray": ("inductive step", "+= &[u8; 2] from ANY invariant state [%d,%d)" % (st, en)),
+    }
+    shape, bound = shapes[kind]
+    enc = list(GEN_ENC)
+    if "digest" in kind:
+        enc = ["Generator::finalize_raw_internal", "guess_output_log_block_size", "get_log_block_size_from_input_size",
+               "finalize", "finalize_without_truncation", "finalize_raw"]
+    q = Q(name, prop, harness=modpath(M_GEN) + "::" + name, module=M_GEN, cfg="release", tiers=tiers, cap=cap,
+          cost=cost, mem=10, shape=shape, bound=bound + "; no bound on input length, content or size",
+          outside="soundness of inv/alpha as written; S* == ssdeep (validated on vectors only)",
+          enc=enc, assumptions=ASSUME_GEN, gen={"kind": kind, "st": st, "en": en})
+    add(q)
+    return q
+
+
+GEN_CALL = {
+    "c01_step": "step_byte(%d, %d)", "c01_digest_trunc": "digest_trunc(%d, %d)", "c01_digest_long": "digest_long(%d, %d)",
+    "c03_two_slice": "step_two(%d, %d, 0)", "c03_two_iter": "step_two(%d, %d, 1)",
+    "c03_two_addslice": "step_two(%d, %d, 2)", "c03_two_addarray": "step_two(%d, %d, 3)",
+}
+
+for (st, en) in ALL_PAIRS:
+    gen_q("c01_step", st, en, "C01", ("quick", "thorough"), (600, 1500), 300)
+    gen_q("c01_digest_trunc", st, en, "C01", ("quick", "thorough"), (600, 1800), 300)
+    gen_q("c01_digest_long", st, en, "C01", ("quick", "thorough"), (600, 1800), 300)
+for (st, en) in [(0, 1), (0, 2), (2, 5), (0, 31), (29, 31), (30, 31), (7, 8), (12, 20)]:
+    for kind in ("c03_two_slice", "c03_two_iter", "c03_two_addslice", "c03_two_addarray"):
+        gen_q(kind, st, en, "C03", ("quick", "thorough"), (900, 2400), 500)
+
+PROP_META["C01"] = {
+    "technique": "Kani/CBMC inductive single-step differential against a pure-CTPH reference model: arbitrary "
+                 "invariant generator state, one real update / finalize, simulation relation re-established; one "
+                 "query per concrete active block-size range (496 ranges); plus full-domain trigger lemma and "
+                 "bounded BMC from the public API",
+    "exhaustive_thorough": True,
+    "assumptions": ["see per-query assumptions (inv, ghost size, opaque rolling hash, S*)"],
+}
+PROP_META["C03"] = {
+    "technique": "Kani/CBMC inductive step per update form (slice / iterator / += forms, size counter running "
+                 "ahead), same simulation relation as C01; bit-identity of clone/finalize; wiring of hash_buf",
+    "assumptions": ["chunks longer than 2 bytes rest on the stated argument in DESIGN.md C03 (a chunk is a "
+                    "sequence of single-byte iterations with a leading counter)"],
+}
+PROP_META["C12"] = {
+    "technique": "Kani/CBMC: set_fixed_input_size / reset / finalize error contract from an arbitrary (reset: "
+                 "completely arbitrary) generator state, tied to the C01 simulation invariant",
+}
+PROP_META["C13"] = {
+    "technique": "Kani/CBMC: block-size border arithmetic on every size 0..=192GiB+1 (complete domain), limit "
+                 "accept/reject, and the C01 inductive queries for the ranges that reach the largest block size "
+                 "and the last-piece hash",
+}
+K("c01_trigger_depth_lemma", "C01", M_GEN, cfg="release", shape="full domain",
+  bound="none: all 2^32 rolling values x 31 levels", cap=(600, 1800), cost=200,
+  enc=["spec_trigger_depth_fast vs definition (model lemma used by the step queries)"])
+K("c01_new_is_base_case", "C01", M_GEN, fn="c12_new_and_reset", cfg="release", shape="inductive step",
+  bound="base case: Generator::new() / reset() satisfy inv and correspond to the initial pure state",
+  cap=(600, 1200), cost=100, enc=["Generator::new", "Generator::reset", "BlockHashContext::new/reset"])
+K("c01_bmc_api_l2", "C01", M_GEN, cfg="release", tiers=("thorough",), shape="BMC", mem=14,
+  bound="public API from the real initial state: every input of <= 2 bytes, every split point, hint",
+  cap=(0, 2400), cost=900, enc=["Generator::update", "update_by_iter", "+=", "finalize", "finalize_without_truncation",
+                                "set_fixed_input_size_in_usize"])
+K("c03_trivial_forms", "C03", M_GEN, cfg="release", shape="inductive step", cap=(600, 1500), cost=300,
+  bound="+= u8 == update_by_byte; empty slice / iterator are no-ops; arbitrary invariant state [2,4)",
+  enc=["AddAssign<u8>", "Generator::update", "update_by_iter"], assumptions=ASSUME_GEN[:1])
+K("c03_finalize_is_pure", "C03", M_GEN, cfg="release", shape="inductive step", cap=(600, 1500), cost=300,
+  bound="clone / finalize* leave the generator bit-identical; arbitrary invariant state [2,4)",
+  enc=["Generator::clone", "finalize", "finalize_without_truncation", "finalize_raw"], assumptions=ASSUME_GEN[:1])
+K("c03_hash_buf_wiring_l3", "C03", M_EASY, cfg="release", shape="BMC", cap=(900, 2400), cost=600, mem=14,
+  bound="hash_buf on every buffer of <= 3 bytes == new + hint + update + finalize",
+  enc=["generate_easy::hash_buf"])
+K("c12_new_and_reset", "C12", M_GEN, cfg="release", shape="inductive step", cap=(600, 1200), cost=100,
+  bound="reset() from a COMPLETELY arbitrary generator (no invariant assumed)",
+  enc=["Generator::reset", "Generator::new"])
+K("c12_set_fixed_input_size", "C12", M_GEN, cfg="release", shape="inductive step", cap=(600, 1500), cost=300,
+  bound="set_fixed_input_size(_in_usize)(n) for every u64 n from an arbitrary invariant state [0,3)",
+  enc=["Generator::set_fixed_input_size", "set_fixed_input_size_in_usize", "get_log_block_size_from_input_size"],
+  assumptions=ASSUME_GEN[:1])
+K("c12_hint_keeps_limit_ok", "C12", M_GEN, cfg="release", shape="full domain", cap=(300, 600), cost=10,
+  bound="every hint n <= 192 GiB on a fresh generator: fork limit covers every level the pure digest can select",
+  enc=["Generator::set_fixed_input_size"])
+K("c12_finalize_errors", "C12", M_GEN, cfg="release", shape="inductive step", cap=(600, 1500), cost=200,
+  bound="finalize error contract from an arbitrary invariant state [1,4), every size / hint",
+  enc=["Generator::finalize_raw_internal", "may_warn_about_small_input_size", "GeneratorError::is_size_too_large_error"],
+  assumptions=ASSUME_GEN[:1])
+K("c13_initial_level_full", "C13", M_GEN, cfg="release", shape="full domain", cap=(300, 600), cost=10,
+  bound="none: every size 0..=192GiB+1 and every start level",
+  enc=["Generator::get_log_block_size_from_input_size", "utils::u64_ilog2"])
+K("c13_finalize_limits", "C13", M_GEN, fn="c12_finalize_errors", cfg="release", shape="inductive step",
+  cap=(600, 1500), cost=200,
+  bound="exactly 192 GiB accepted, one byte more rejected, small-input predicate == size < 4097; any invariant state [1,4)",
+  enc=["Generator::finalize_raw_internal", "MAX_INPUT_SIZE", "may_warn_about_small_input_size"],
+  assumptions=ASSUME_GEN[:1])
+K("c13_u64_ilog2_full", "C13", M_UTILS, fn="c20_u64_ilog2_full", shape="full domain", bound="none: all non-zero u64",
+  enc=["utils::u64_ilog2"], cap=(120, 300), cost=5)
+# C13 re-uses the C01 inductive queries for the ranges reaching index 30 / the last-piece hash
+for (st, en) in [(0, 31), (29, 31), (30, 31), (15, 31)]:
+    for kind in ("c01_step", "c01_digest_trunc", "c01_digest_long"):
+        q = gen_q(kind, st, en, "C13", ("quick", "thorough"), (600, 1800), 300)
+        q.name = "c13_" + q.name
+PROP_META["C18"] = {
+    "technique": "Kani/CBMC BMC of hash_stream_common with a nondeterministic Read implementation (arbitrary "
+                 "short reads, arbitrary error kind at an arbitrary read)",
+    "assumptions": ["Read contract: Ok(n) with n <= buf.len(); <= 3 reads of <= 2 bytes each",
+                    "hash_file's File::open / metadata (operating-system I/O) are outside this technique"],
+}
+for nm in ("c18_stream_no_hint", "c18_stream_with_hint"):
+    K(nm, "C18", M_STD, cfg="release", shape="BMC", cap=(900, 2400), cost=600, mem=14,
+      bound="<= 3 reads x <= 2 bytes per read, arbitrary error kind (4 kinds) at an arbitrary read",
+      outside="reads longer than 2 bytes (32 KiB buffer boundary); hash_file's OS half",
+      enc=["generate_easy_std::hash_stream_common", "Generator::update", "Generator::finalize"])
+PROP_META["C19"] = {
+    "technique": "Kani/CBMC full-domain query for the FNV step (all 2^32 states x 256 bytes); SMT (z3+cvc5) "
+                 "inductive step of the rolling hash extracted from MIR; Kani BMC for the update forms",
+}
+K("c19_fnv_step_full_domain", "C19", M_FNV, shape="full domain", bound="none: all 2^32 FNV states x 256 bytes",
+  enc=["PartialFNVHash::update_by_byte", "PartialFNVHash::value", "FNV_TABLE"], cap=(300, 600), cost=10)
+K("c19_fnv_step_any_internal_byte", "C19", M_FNV, shape="full domain", bound="none: every internal byte allowed by the build",
+  enc=["PartialFNVHash::update_by_byte"], cap=(300, 600), cost=10)
+K("c19_fnv_init", "C19", M_FNV, shape="full domain", bound="none", enc=["PartialFNVHash::new"], cap=(120, 300), cost=5)
+K("c19_fnv_forms_agree", "C19", M_FNV, shape="BMC", bound="arbitrary state, <= 3 bytes, all five update forms",
+  enc=["PartialFNVHash::update", "update_by_iter", "AddAssign x3"], cap=(300, 600), cost=20)
+K("c19_roll_forms_agree", "C19", M_ROLL, shape="BMC", bound="ARBITRARY internal state, <= 3 bytes, all five update forms",
+  enc=["RollingHash::update", "update_by_iter", "update_by_byte", "AddAssign x3"], cap=(300, 900), cost=60)
+K("c19_roll_value_from_new_k9", "C19", M_ROLL, cfg="release", shape="BMC", cap=(900, 2400), cost=600,
+  bound="from new(): every input of <= 9 bytes, value == definition over the trailing 7-byte window",
+  enc=["RollingHash::new", "update", "value"])
+
+
+def _gen_text(qs):
+    lines = ["// generated by /verif/engine/tables.py for this run"]
+    seen = set()
+    for q in qs:
+        if not q.gen:
+            continue
+        g = q.gen
+        fn = "%s_%d_%d" % (g["kind"], g["st"], g["en"])
+        if fn in seen:
+            continue
+        seen.add(fn)
+        lines.append("#[kani::proof]\n#[kani::unwind(66)]\nfn %s() { %s }" % (fn, GEN_CALL[g["kind"]] % (g["st"], g["en"])))
+    return "\n".join(lines) + "\n"
+
+
+def generated_files(qs):
+    return {"verif_gen/gen_pairs.rs": _gen_text(qs)}
+
+
+QUICK_ROTATING = 2
+
+
+def select(prop, tier, seed, qs):
+    """Quick tier: exhaustive families (the 496 active ranges) are cut to the fixed boundary
+    members plus a seed-rotated sample; the thorough tier runs all of them."""
+    if tier != "quick":
+        return qs
+    fam = [q for q in qs if q.gen and q.gen["kind"].startswith("c01_") and q.prop == "C01"]
+    if not fam:
+        return qs
+    others = [q for q in qs if q not in fam]
+    import random
+    rnd = random.Random(seed)
+    rest = [p for p in ALL_PAIRS if p not in BOUNDARY_PAIRS]
+    pick = set(BOUNDARY_PAIRS) | set(rnd.sample(rest, QUICK_ROTATING))
+    return others + [q for q in fam if (q.gen["st"], q.gen["en"]) in pick]
+
+
+# ------------------------------------------------------------------------------------
+# C07 (dual hashes), and the object-level properties C11 / C15 / C16 / C17 / C02 / C10
+# ------------------------------------------------------------------------------------
+DUAL_SRC = "ffuzzy/src/internals/hash_dual.rs"
+
+
+def dual_rules(n_in=None, n_rle=None):
+    r = []
+    if n_in is not None:
+        r.append((r"compress_block_hash_with_rle", n_in))
+        r.append((r"normalize_block_hash_in_place_internal", n_in))
+        r.append((r"verify_block_hash_internal", n_in))
+    if n_rle is not None:
+        r.append((r"expand_block_hash_using_rle|is_valid_rle_block_for_block_hash", n_rle))
+    return r
+
+
+PROP_META["C07"] = {
+    "technique": "Kani/CBMC BMC of the RLE kernels (<32,8> and <64,16>) against canonical-form models "
+                 "(spec_norm, spec_rle) on symbolic raw block hashes: family A (unrestricted content, bounded "
+                 "length), family B (full capacity, one planted run of symbolic position/length), "
+                 "update_rle_block on its whole precondition, 'valid => canonical', and object-level wiring",
+    "assumptions": ["reference models spec_norm / spec_rle (harness/spec/norm.rs)"],
+}
+for (N, C, B, tiers, cap, cost) in [(32, 8, 8, ("quick",), (480, 0), 60), (32, 8, 12, ("thorough",), (0, 1800), 300),
+                                    (32, 8, 16, ("thorough",), (0, 2400), 900),
+                                    (64, 16, 8, ("quick",), (480, 0), 90), (64, 16, 12, ("thorough",), (0, 2400), 600)]:
+    K("c07_kernel%d_b%d" % (N, B), "C07", M_DUAL, cfg="release", tiers=tiers, cap=cap, cost=cost, mem=12,
+      unwindset=dual_rules(n_in=B + 1, n_rle=C + 1), shape="BMC",
+      bound="RLE kernels ::<%d,%d>: every raw block hash of <= %d symbols over 64 symbols" % (N, C, B),
+      outside="unrestricted content longer than %d symbols (only families of planted runs)" % B,
+      enc=["compress_block_hash_with_rle::<%d,%d>" % (N, C), "expand_block_hash_using_rle", "is_valid_rle_block_for_block_hash",
+           "update_rle_block", "rle_encoding::encode/decode"], assumptions=[ASSUME_SYM])
+for (N, C) in [(32, 8), (64, 16)]:
+    K("c07_kernel%d_planted" % N, "C07", M_DUAL, cfg="release", tiers=("thorough",), cap=(0, 3000), cost=1500, mem=14,
+      unwindset=dual_rules(n_in=N + 1, n_rle=C + 1), shape="BMC",
+      bound="RLE kernels ::<%d,%d> at full capacity: one run of every length 1..=%d at every position, run-free "
+            "neighbours (RLE groups 4,4,..,rest up to %d symbols, runs ending at the capacity limit)" % (N, C, N, C),
+      enc=["compress_block_hash_with_rle::<%d,%d>" % (N, C), "expand_block_hash_using_rle", "is_valid_rle_block_for_block_hash"],
+      assumptions=[ASSUME_SYM])
+K("c07_update_rle_8", "C07", M_DUAL, cfg="release", shape="full domain", cap=(300, 600), cost=10,
+  bound="none: every (offset, pos, len) satisfying the precondition of update_rle_block::<8>",
+  enc=["update_rle_block::<8>", "rle_encoding::encode", "rle_encoding::decode"])
+K("c07_update_rle_16", "C07", M_DUAL, cfg="release", shape="full domain", cap=(300, 600), cost=10,
+  bound="none: every (offset, pos, len) satisfying the precondition of update_rle_block::<16>",
+  enc=["update_rle_block::<16>"])
+for (N, C) in [(32, 8), (64, 16)]:
+    K("c07_valid_only_canonical%d_b8" % N, "C07", M_DUAL, cfg="release", tiers=("quick", "thorough") if N == 32 else ("thorough",),
+      cap=(600, 1800), cost=300, mem=12, unwindset=dual_rules(n_in=17, n_rle=C + 1), shape="BMC",
+      bound="arbitrary RLE block (2 free symbols) on every valid normalized block hash of <= 8 symbols: accepted => canonical",
+      enc=["is_valid_rle_block_for_block_hash::<%d,%d>" % (N, C), "expand_block_hash_using_rle", "compress_block_hash_with_rle"],
+      assumptions=[ASSUME_SYM])
+for (S, m, tiers, cap, cost) in [("short", 8, ("quick", "thorough"), (900, 2400), 600),
+                                 ("long", 8, ("thorough",), (0, 2400), 600),
+                                 ("short", 12, ("thorough",), (0, 3000), 1500)]:
+    K("c07_object_%s_m%d" % (S, m), "C07", M_DUAL, cfg="release", tiers=tiers, cap=cap, cost=cost, mem=14,
+      unwindset=dual_rules(n_in=m + 1, n_rle=17), shape="BMC",
+      bound="object routes of the %s dual type, raw block hashes <= %d symbols" % (S, m),
+      outside="object-level wrappers with longer block hashes (they forward to the kernels)",
+      enc=["FuzzyHashDualData::from_raw_form", "From<raw>", "init_from_raw_form", "new_from_internals(_near_raw)",
+           "to_raw_form", "into_mut_raw_form", "as_normalized", "to_normalized", "normalize_in_place",
+           "from_normalized", "is_valid", "is_normalized", "PartialEq", "Ord"],
+      assumptions=[ASSUME_SYM, "raw source object valid (spec_valid)"])
+
+PROP_META["C16"] = {
+    "technique": "Kani/CBMC BMC: Eq / Hash (recording hasher) / Ord of two (three) symbolic valid objects against "
+                 "the documented lexicographic order",
+    "assumptions": ["reference model spec_order (block size, bh1 prefix-first lexicographic, bh2 likewise)"],
+}
+for (S, s1, s2, norm) in [("short_raw", 64, 32, False), ("short_norm", 64, 32, True),
+                          ("long_raw", 64, 64, False), ("long_norm", 64, 64, True)]:
+    K("c16_pair_%s_m16" % S, "C16", M_HASH, cfg="release", tiers=("quick",), cap=(600, 0), cost=200, mem=12,
+      unwindset=[("@memcmp.0", 70)], shape="BMC",
+      bound="pairs of valid FuzzyHashData<%d,%d,%s>, block hashes <= 16 symbols" % (s1, s2, norm),
+      enc=["PartialEq::eq", "Ord::cmp", "PartialOrd::partial_cmp", "Hash::hash", "cmp_by_block_size"],
+      assumptions=["both objects valid (spec_valid)"])
+    K("c16_pair_%s_full" % S, "C16", M_HASH, cfg="release", tiers=("thorough",), cap=(0, 3000), cost=1200, mem=14,
+      unwindset=[("@memcmp.0", 70)], shape="BMC",
+      bound="pairs of valid FuzzyHashData<%d,%d,%s>, block hashes up to full capacity" % (s1, s2, norm),
+      enc=["PartialEq::eq", "Ord::cmp", "PartialOrd::partial_cmp", "Hash::hash"],
+      assumptions=["both objects valid (spec_valid)"])
+for nm in ("c16_triple_short_raw_m8", "c16_triple_long_norm_m8"):
+    K(nm, "C16", M_HASH, cfg="release", cap=(900, 2400), cost=400, mem=12, unwindset=[("@memcmp.0", 70)], shape="BMC",
+      bound="triples of valid objects, block hashes <= 8 symbols (transitivity)", enc=["Ord::cmp", "PartialEq::eq"],
+      assumptions=["objects valid (spec_valid)"])
+for nm in ("c16_dual_pair_short_m8", "c16_dual_pair_long_m8", "c16_dual_hash_short_m8", "c16_dual_triple_short_m6"):
+    K(nm, "C16", M_DUAL, cfg="release", tiers=("quick", "thorough") if "short_m8" in nm and "pair" in nm else ("thorough",),
+      cap=(900, 3000), cost=900, mem=14, unwindset=dual_rules(n_in=9, n_rle=17) + [("@memcmp.0", 70)], shape="BMC",
+      bound="dual hashes built from valid raw hashes with block hashes <= 8 (6) symbols",
+      enc=["FuzzyHashDualData: PartialEq, Ord, PartialOrd, Hash", "from_raw_form"],
+      assumptions=["raw objects valid (spec_valid)"])
+
+PROP_META["C15"] = {
+    "technique": "Kani/CBMC BMC per edge of the conversion graph on a symbolic valid source and a symbolic dirty "
+                 "destination: content function, validity, narrowing failure leaves the destination untouched",
+}
+for nm, tiers, cap, cost in [("c15_short_long_raw_m16", ("quick",), (600, 0), 200),
+                             ("c15_short_long_norm_m16", ("quick",), (600, 0), 200),
+                             ("c15_short_long_raw_full", ("thorough",), (0, 2400), 600),
+                             ("c15_short_long_norm_full", ("thorough",), (0, 2400), 900),
+                             ("c15_narrow_raw_m40", ("quick",), (600, 0), 200),
+                             ("c15_narrow_raw_full", ("thorough",), (0, 2400), 600),
+                             ("c15_narrow_norm_full", ("thorough",), (0, 2400), 900),
+                             ("c15_short_norm_to_long_raw", ("quick", "thorough"), (600, 2400), 300),
+                             ("c15_chain_commutes_m10", ("quick", "thorough"), (900, 2400), 500)]:
+    K(nm, "C15", M_HASH, cfg="release", tiers=tiers, cap=cap, cost=cost, mem=12,
+      unwindset=alg_rules(n_norm=12, n_verify=66) if "chain" in nm else None, shape="BMC",
+      bound={"m16": "block hashes <= 16 symbols", "full": "block hashes up to full capacity",
+             "m40": "block hash 1 <= 8, block hash 2 <= 40 symbols", "raw": "block hashes up to full capacity",
+             "m10": "block hashes <= 10 symbols"}[nm.split("_")[-1]],
+      enc=["to_long_form", "from_short_form", "From<short> for long", "into_mut_long_form", "try_into_mut_short",
+           "TryFrom<long> for short", "From<short norm> for long raw", "to_raw_form", "normalize"],
+      assumptions=["source valid (spec_valid); destination arbitrary bits"])
+for nm in ("c15_dual_edges_short_m8",):
+    K(nm, "C15", M_DUAL, fn="c07_object_short_m8", cfg="release", cap=(900, 2400), cost=600, mem=14,
+      unwindset=dual_rules(n_in=9, n_rle=17), shape="BMC",
+      bound="dual edges (from_raw_form/from_normalized/to_raw_form/to_normalized/into_mut_raw_form/From), block hashes <= 8",
+      enc=["FuzzyHashDualData conversions"], assumptions=["source valid (spec_valid)"])
+
+PROP_META["C11"] = {
+    "technique": "Kani/CBMC, one inductive step per public safe operation: arbitrary valid inputs and arbitrary "
+                 "(dirty) destinations give valid outputs; out-of-contract constructor arguments: 'returned => "
+                 "valid' as a tagged assertion (expected panics ignored), with debug assertions on AND off; "
+                 "validity checks on arbitrary bit patterns never panic",
+    "assumptions": ["'any sequence of operations' is reduced to one step per operation from arbitrary valid "
+                    "(or dirty) objects; the operation list is the pub fn items of hash.rs / hash_dual.rs / compare.rs"],
+}
+for S in ("short_norm", "short_raw", "long_norm", "long_raw"):
+    K("c11_is_valid_spec_%s" % S, "C11", M_HASH, cfg="release", tiers=("quick", "thorough") if S.startswith("short") else ("thorough",),
+      cap=(600, 1800), cost=200, mem=12, unwindset=[("@memcmp.0", 70)], shape="BMC",
+      bound="is_valid / full_eq on ARBITRARY bit patterns of the %s type (full size)" % S,
+      enc=["FuzzyHashData::is_valid", "full_eq", "verify_block_hash_input"])
+for nm, tiers in [("c11_constructors_ok_short_norm_m12", ("quick", "thorough")), ("c11_constructors_ok_long_raw_m12", ("thorough",)),
+                  ("c11_constructors_ok_short_raw_full", ("thorough",)), ("c11_constructors_ok_long_norm_full", ("thorough",))]:
+    K(nm, "C11", M_HASH, cfg="release", tiers=tiers, cap=(900, 2400), cost=400, mem=12, shape="BMC",
+      bound="in-contract constructors rebuild exactly the given valid content (%s)" % nm.split("_")[-1],
+      enc=["new_from_internals_raw", "init_from_internals_raw", "new_from_internals_near_raw", "new_from_internals", "new", "default"],
+      assumptions=["arguments satisfy the documented contract (a valid object's fields)"])
+for nm in ("c11_ooc_new_from_internals_short_norm", "c11_ooc_new_from_internals_short_raw", "c11_ooc_new_from_internals_long_norm",
+           "c11_ooc_near_raw_short_norm", "c11_ooc_near_raw_long_raw", "c11_ooc_internals_raw_short_norm",
+           "c11_ooc_internals_raw_long_raw"):
+    for cfg in ("release", "default"):
+        K(nm + ("" if cfg == "release" else "_dbg"), "C11", M_HASH, fn=nm, cfg=cfg,
+          tiers=("quick", "thorough") if ("short" in nm) else ("thorough",),
+          cap=(600, 1800), cost=150, mem=12, only_tag="VERIF_TAG", shape="BMC",
+          bound="ANY arguments (<= 6 symbols per block hash, any block size): if the constructor returns, the object is valid",
+          enc=[nm.replace("c11_ooc_", "").rsplit("_", 2)[0]],
+          assumptions=["panics of the constructor are the documented behaviour (ignored); only 'returned => valid' is read",
+                       "debug assertions %s" % ("off" if cfg == "release" else "on")])
+for nm in ("c11_dual_ooc_short", "c11_dual_ooc_near_raw_short"):
+    for cfg in ("release", "default"):
+        K(nm + ("" if cfg == "release" else "_dbg"), "C11", M_DUAL, fn=nm, cfg=cfg, cap=(900, 2400), cost=400, mem=12,
+          only_tag="VERIF_TAG", unwindset=dual_rules(n_in=8, n_rle=17), shape="BMC",
+          bound="ANY arguments (<= 6 symbols per block hash): if the dual constructor returns, the object is valid",
+          enc=["FuzzyHashDualData::new_from_internals", "new_from_internals_near_raw"],
+          assumptions=["panics are the documented behaviour (ignored)"])
+K("c11_dual_is_valid_total", "C11", M_DUAL, cfg="release", cap=(900, 2400), cost=300, mem=12, shape="BMC",
+  bound="FuzzyHashDualData::is_valid / is_normalized on ARBITRARY bit patterns (short type): no panic",
+  enc=["FuzzyHashDualData::is_valid", "is_valid_rle_block_for_block_hash", "is_normalized"])
+K("c11_target_total", "C11", M_CMP, cfg="release", cap=(900, 2400), cost=300, mem=12, unwindset=[("@memcmp.0", 520)],
+  shape="BMC", bound="FuzzyHashCompareTarget::is_valid / full_eq on ARBITRARY bit patterns: no panic; new()/default() valid",
+  enc=["FuzzyHashCompareTarget::is_valid", "full_eq", "new", "default"])
+K("c11_dual_parser_valid", "C11", M_DUAL, fn="c04_dual_capacity_bh2_short_t37", cfg="default", tiers=("thorough",),
+  cap=(0, 3000), cost=1500, mem=14, unwindset=alg_rules(n_text=40, n_verify=40) + dual_rules(n_in=40, n_rle=17), shape="BMC",
+  bound="dual parser on '3::' + every byte string of <= 34 bytes: Ok => is_valid (capacity class that exposed F1)",
+  enc=["FuzzyHashDualData::from_bytes_with_last_index"])
+
+PROP_META["C17"] = {
+    "technique": "Kani/CBMC from an ARBITRARY pre-state: init_from / clear / From of position arrays and "
+                 "comparison targets equal the reference masks of the string; has_sequences on all u64 x 0..=65",
+    "assumptions": ["reference masks: bit i of mask[c] <=> s[i] == c, i < len"],
+}
+for (L, tiers, cap, cost) in [(8, ("quick", "thorough"), (600, 1200), 90), (16, ("thorough",), (0, 2400), 400),
+                              (32, ("thorough",), (0, 3000), 1500)]:
+    K("c17_pa_init_l%d" % L, "C17", M_PA, cfg="release", tiers=tiers, cap=cap, cost=cost, mem=12,
+      unwindset=pa_rules(n_init=L + 1), shape="inductive step",
+      bound="BlockHashPositionArray::init_from on an arbitrary array, string <= %d symbols" % L,
+      outside="strings longer than %d symbols at this level" % L,
+      enc=["BlockHashPositionArray::init_from", "clear_representation_only", "init_from_partial"], assumptions=[ASSUME_SYM])
+K("c17_pa_init_partial_l16", "C17", M_PA, cfg="release", tiers=("thorough",), cap=(0, 2400), cost=300,
+  unwindset=pa_rules(n_init=17), shape="BMC", bound="init_from_partial on a zeroed array, string <= 16 symbols",
+  enc=["init_from_partial"], assumptions=[ASSUME_SYM])
+K("c17_pa_clear", "C17", M_PA, cfg="release", shape="inductive step", cap=(300, 600), cost=15,
+  bound="clear() on an arbitrary array == new()", enc=["BlockHashPositionArray::clear", "new"])
+for (L, tiers, cap, cost) in [(8, ("quick", "thorough"), (600, 1500), 120), (16, ("thorough",), (0, 2400), 600)]:
+    K("c17_pa_queries_l%d" % L, "C17", M_PA, cfg="release", tiers=tiers, cap=cap, cost=cost, mem=12,
+      unwindset=pa_rules(n_init=L + 1), shape="BMC",
+      bound="is_valid / is_equiv / is_valid_and_normalized on the reference masks of strings <= %d symbols" % L,
+      enc=["is_valid", "is_equiv_internal", "is_valid_and_normalized", "has_sequences_const"], assumptions=[ASSUME_SYM])
+K("c17_pa_is_valid_spec", "C17", M_PA, cfg="release", cap=(900, 1800), cost=200, shape="BMC",
+  bound="is_valid on arbitrary data: three arbitrary masks at arbitrary symbols, any len",
+  enc=["BlockHashPositionArrayData::is_valid", "u64_lsb_ones"])
+K("c17_has_sequences_full", "C17", M_PA, cfg="release", shape="full domain", cap=(600, 1200), cost=20,
+  bound="none: all u64 x all lengths 0..=65", enc=["block_hash_position_array_element::has_sequences", "has_sequences_const"])
+for (nm, M_, tiers, cap, cost) in [("c17_target_init_short_m6", 6, ("quick", "thorough"), (900, 2400), 400),
+                                   ("c17_target_init_long_m6", 6, ("thorough",), (0, 2400), 400),
+                                   ("c17_target_init_short_m12", 12, ("thorough",), (0, 3000), 1500)]:
+    K(nm, "C17", M_CMP, cfg="release", tiers=tiers, cap=cap, cost=cost, mem=14,
+      unwindset=pa_rules(n_init=M_ + 1), shape="inductive step",
+      bound="FuzzyHashCompareTarget::init_from on an ARBITRARY target and From<hash>: block hashes <= %d symbols" % M_,
+      enc=["FuzzyHashCompareTarget::init_from", "init_from_partial", "From<&FuzzyHashData>", "From<FuzzyHashData>", "full_eq"],
+      assumptions=[ASSUME_SYM, "hash valid (spec_valid)"])
+K("c17_target_queries_m8", "C17", M_CMP, cfg="release", cap=(900, 2400), cost=400, mem=14,
+  unwindset=pa_rules(n_init=9), shape="BMC",
+  bound="is_valid / is_equiv / clone on the reference target, block hashes <= 8 symbols",
+  enc=["FuzzyHashCompareTarget::is_valid", "is_equiv", "is_equiv_except_block_size", "Clone"], assumptions=[ASSUME_SYM])
+
+PROP_META["C02"] = {
+    "technique": "Kani/CBMC BMC of the comparison dispatch on symbolic pairs of normalized hashes against the "
+                 "defined score (textbook LCS DP + 7-gram search + score arithmetic); block-size pair concrete per "
+                 "query (all 91 near pairs enumerated in the thorough tier), contents symbolic, block hashes bounded",
+    "assumptions": ["reference model spec_score (harness/spec/score.rs, lcs.rs)", ASSUME_MASKS],
+}
+PROP_META["C10"] = {
+    "technique": "Kani/CBMC BMC of score laws and of candidate <=> index-window intersection on symbolic pairs "
+                 "(block-size pair concrete per query); windows = injective base-64 encoding at full length 64",
+    "assumptions": [ASSUME_MASKS],
+}
+C02_RULES = [(r"edit_distance_internal", 10), (r"has_common_substring_internal", 10),
+             (r"is_equiv_internal|Enumerate|enumerate", 12), ("@memcmp.0", 70)]
+NEAR_PAIRS = [(n, n) for n in range(31)] + [(n, n + 1) for n in range(30)] + [(n + 1, n) for n in range(30)]
+FAR_PAIRS = [(0, 2), (2, 0), (0, 30), (30, 0), (13, 15), (28, 30)]
+C02_QUICK = [(3, 3), (3, 4), (4, 3), (30, 30), (29, 30), (30, 29), (0, 2)]
+for (a, b) in NEAR_PAIRS + FAR_PAIRS:
+    K("c02_t_ss_m7_%d_%d" % (a, b), "C02", M_CMP, cfg="release",
+      tiers=("quick", "thorough") if (a, b) in C02_QUICK else ("thorough",), cap=(900, 2400), cost=400, mem=12,
+      unwindset=C02_RULES, shape="BMC",
+      bound="FuzzyHashCompareTarget::compare, block sizes (3<<%d, 3<<%d), block hashes <= 7 symbols over 64 symbols" % (a, b),
+      outside="longer block hashes through the top-level entry points (covered compositionally via C08/C09/C20)",
+      enc=["FuzzyHashCompareTarget::compare", "compare_near_eq_internal", "compare_unequal_near_{eq,lt,gt}_internal",
+           "score_strings_internal", "score_strings_raw_internal", "is_equiv_except_block_size", "block_size::compare_sizes"],
+      assumptions=[ASSUME_SYM, "both hashes valid and normalized (spec_valid)"])
+    K("c10_c_s_m8_%d_%d" % (a, b), "C10", M_CMP, cfg="release",
+      tiers=("quick", "thorough") if (a, b) in C02_QUICK else ("thorough",), cap=(900, 2400), cost=500, mem=12,
+      unwindset=C02_RULES, shape="BMC",
+      bound="score > 0 <=> equal or candidate; candidate <=> index windows intersect; block sizes (3<<%d, 3<<%d), "
+            "block hashes <= 8 symbols" % (a, b),
+      enc=["FuzzyHashCompareTarget::is_comparison_candidate(_near_*)", "compare", "block_hash_{1,2}_index_windows"],
+      assumptions=[ASSUME_SYM, "both hashes valid and normalized (spec_valid)"])
+for (pre, fn_pairs, desc) in [("c02_t_ll_m8", [(2, 2), (3, 4), (30, 29), (30, 30)], "long x long, <= 8 symbols"),
+                              ("c02_t_sl_m8", [(3, 3), (7, 8), (30, 29)], "short target x long operand, <= 8 symbols"),
+                              ("c02_t_ss_m10a4", [(1, 1), (3, 4), (5, 4), (30, 30)], "<= 10 symbols over 4 symbols"),
+                              ("c02_v_m7", [(3, 3), (3, 4), (4, 3), (30, 30), (29, 30), (30, 29)],
+                               "compare_unequal* / near_* variants == compare under their contracts, <= 7 symbols")]:
+    for (a, b) in fn_pairs:
+        K("%s_%d_%d" % (pre, a, b), "C02", M_CMP, cfg="release", tiers=("thorough",), cap=(0, 3000), cost=900, mem=14,
+          unwindset=[(r"edit_distance_internal", 12), (r"has_common_substring_internal", 12),
+                     (r"is_equiv_internal|Enumerate|enumerate", 12), ("@memcmp.0", 70)], shape="BMC",
+          bound="%s; block sizes (3<<%d, 3<<%d)" % (desc, a, b),
+          enc=["FuzzyHashCompareTarget::compare and variants"], assumptions=[ASSUME_SYM])
+for nm in ("c02_hash_compare_short_m7", "c02_hash_compare_long_m7", "c02_dual_operand_m7"):
+    K(nm, "C02", M_CMP, cfg="release", tiers=("thorough",), cap=(0, 3600), cost=2000, mem=14,
+      unwindset=C02_RULES + pa_rules(n_init=8) + dual_rules(n_in=8, n_rle=17), shape="BMC",
+      bound="hash-to-hash entry points (own target construction), all 31x31 block sizes symbolic, block hashes <= 7 symbols",
+      enc=["FuzzyHashData::compare", "compare_unequal", "compare_optimized_internal", "FuzzyHashCompareTarget::from",
+           "BlockHashPositionArray::init_from_partial"], assumptions=[ASSUME_SYM])
+K("c02_str_compare_wiring", "C02", M_CEASY, cfg="release", tiers=("thorough",), cap=(0, 3600), cost=2000, mem=14,
+  shape="BMC", bound="compare(&str,&str) on two texts of <= 5 ASCII bytes each: error side/kind and score wiring",
+  enc=["compare_easy::compare", "LongFuzzyHash::from_str", "LongFuzzyHash::compare"])
+for (a, b) in [(0, 0), (30, 30), (29, 30), (30, 29)]:
+    K("c10_c_l_m8_%d_%d" % (a, b), "C10", M_CMP, cfg="release", tiers=("thorough",), cap=(0, 3000), cost=900, mem=14,
+      unwindset=C02_RULES, shape="BMC", bound="long hashes, block sizes (3<<%d, 3<<%d), block hashes <= 8 symbols" % (a, b),
+      enc=["FuzzyHashCompareTarget::is_comparison_candidate", "compare"], assumptions=[ASSUME_SYM])
+for nm, cost in (("c10_symmetry_m7", 600), ("c10_symmetry_m8", 1500)):
+    K(nm, "C10", M_CMP, cfg="release", tiers=("thorough",), cap=(0, 3600), cost=cost, mem=14, unwindset=C02_RULES,
+      shape="BMC", bound="score(a,b) == score(b,a), score(a,a) == 100; all 31x31 sizes symbolic, block hashes <= %s symbols" % nm[-1],
+      enc=["FuzzyHashCompareTarget::compare", "is_comparison_candidate"], assumptions=[ASSUME_SYM])
+K("c10_windows_full_length", "C10", M_BLOCK, tiers=("thorough",), cap=(0, 1200), cost=100, shape="BMC",
+  bound="numeric / index windows of every block hash of length 0..=64 (full) over 64 symbols, log 0..=31",
+  enc=["block_hash::NumericWindows", "block_hash::IndexWindows"], assumptions=[ASSUME_SYM])
+K("c10_window_injective", "C10", M_BLOCK, shape="full domain", cap=(300, 600), cost=10,
+  bound="none: all pairs of 7-symbol slices x all log pairs 0..=31", enc=["NumericWindows::next", "IndexWindows::next"],
+  assumptions=[ASSUME_SYM])
+
+
+# ------------------------------------------------------------------------------------
+# C04 (dual types), C07 (parser route), C14 (feature matrix)
+# ------------------------------------------------------------------------------------
+DUAL_PARSE_RULES = alg_rules(n_text=42, n_verify=42) + dual_rules(n_in=42, n_rle=17)
+for (nm, tiers, cap, cost, T) in [("c04_dual_driver_short_t10", ("quick", "thorough"), (900, 2400), 500, 10),
+                                  ("c04_dual_driver_long_t10", ("thorough",), (0, 2400), 500, 10),
+                                  ("c04_dual_driver_short_t14", ("thorough",), (0, 3600), 1500, 14),
+                                  ("c04_dual_capacity_bh2_short_t37", ("thorough",), (0, 3600), 2000, 37),
+                                  ("c04_dual_capacity_bh2_short_t40", ("thorough",), (0, 3600), 3000, 40)]:
+    K(nm, "C04", M_DUAL, tiers=tiers, cap=cap, cost=cost, mem=14,
+      unwindset=alg_rules(n_text=T + 2, n_verify=T + 2) + dual_rules(n_in=T + 2, n_rle=17), shape="BMC",
+      bound=("dual parser: '3::' + every byte string of <= %d bytes (block hash 2 reaches and exceeds the capacity 32)" % (T - 3))
+      if "capacity" in nm else ("dual parser: every byte string of <= %d bytes" % T),
+      enc=["FuzzyHashDualData::from_bytes_with_last_index", "from_bytes", "from_raw_form", "to_raw_form", "is_valid"])
+K("c07_parser_route_short_t10", "C07", M_DUAL, fn="c04_dual_driver_short_t10", tiers=("thorough",), cap=(0, 2400), cost=500,
+  mem=14, unwindset=alg_rules(n_text=12, n_verify=12) + dual_rules(n_in=12, n_rle=17), shape="BMC",
+  bound="parsing a text gives the same dual hash as compressing the parsed raw hash; every byte string of <= 10 bytes",
+  enc=["FuzzyHashDualData::from_bytes_with_last_index", "from_raw_form"])
+
+PROP_META["C14"] = {
+    "technique": "the same Kani/CBMC (and SMT) queries re-run per feature set x debug-assertion setting against the "
+                 "same reference models (equality between configurations by transitivity inside the common bounds); "
+                 "in the unsafe build every invariant!() is an assert_unchecked that Kani checks, and CBMC's pointer "
+                 "checks cover the raw-pointer generator loop",
+    "assumptions": ["MSRV fallbacks selected by build.rs for old rustc and the unstable/nightly features are outside "
+                    "(not buildable with the pinned Kani toolchain)"],
+}
+
+
+def c14(name, base_module, fn, cfg, tiers, cap, cost, bound, enc, unwindset=None, only_tag=None, gen=None, mem=12):
+    q = Q("c14_%s__%s" % (name, cfg), "C14", harness=modpath(base_module) + "::" + fn, module=base_module, cfg=cfg,
+          tiers=tiers, cap=cap, cost=cost, mem=mem, unwindset=unwindset, only_tag=only_tag, shape="BMC",
+          bound=bound + " [configuration %s]" % cfg, enc=enc, gen=gen,
+          assumptions=["same reference model as the default-configuration query of the same harness"])
+    add(q)
+    return q
+
+
+C14_CFGS_Q = ["unsafe-release", "fnv", "strict", "nodefault"]
+C14_CFGS_T = ["default", "release", "unsafe", "unsafe-release", "unchecked", "unchecked-release", "fnv", "fnv-release",
+              "unsafe-fnv", "unsafe-fnv-release", "strict", "strict-release", "nodefault", "nodefault-release"]
+for cfg in C14_CFGS_T:
+    tq = ("quick", "thorough") if cfg in C14_CFGS_Q else ("thorough",)
+    c14("fnv_step", M_FNV, "c19_fnv_step_any_internal_byte", cfg, tq, (300, 600), 10,
+        "FNV step, all 2^32 states x 256 bytes", ["PartialFNVHash::update_by_byte"])
+    c14("block_size", M_BLOCK, "c20_log_from_valid_full", cfg, tq, (300, 600), 10,
+        "log_from_valid on all valid block sizes", ["block_size::log_from_valid"])
+    c14("bh32_norm", M_ALG, "c04_bh32_t12_norm", cfg, tq, (600, 1200), 80,
+        "block hash field kernel ::<32> collapsing, <= 12 bytes", ["parse_block_hash_from_bytes::<_,32>"],
+        unwindset=alg_rules(n_text=14))
+    c14("driver_short_norm", M_HASH, "c04_driver_short_norm_t10", cfg, tq, (900, 2400), 300,
+        "from_bytes of the short normalizing type, <= 10 bytes", ["FuzzyHashData::from_bytes_with_last_index"],
+        unwindset=alg_rules(n_text=12, n_verify=12))
+    c14("driver_short_raw", M_HASH, "c04_driver_short_raw_t10", cfg, ("thorough",), (900, 2400), 300,
+        "from_bytes of the short raw type, <= 10 bytes", ["FuzzyHashData::from_bytes_with_last_index"],
+        unwindset=alg_rules(n_text=12, n_verify=12))
+    c14("dual_driver", M_DUAL, "c04_dual_driver_short_t10", cfg, ("thorough",), (900, 2400), 500,
+        "from_bytes of the short dual type, <= 10 bytes", ["FuzzyHashDualData::from_bytes_with_last_index"],
+        unwindset=alg_rules(n_text=12, n_verify=12) + dual_rules(n_in=12, n_rle=17), mem=14)
+    c14("norm32", M_ALG, "c06_norm32_b16", cfg, tq, (600, 1200), 60,
+        "normalize kernel ::<32>, raw length <= 16", ["normalize_block_hash_in_place_internal::<32>"],
+        unwindset=alg_rules(n_norm=17))
+    c14("ed_l4", M_PA, "c08_ed_l4_a64", cfg, ("thorough",), (600, 1200), 60,
+        "edit distance vs DP, strings <= 4", ["edit_distance_internal"], unwindset=pa_rules(n_ed=5))
+    c14("store", M_HASH, "c05_store_short_raw_m8", cfg, ("thorough",), (900, 1800), 300,
+        "store_into_bytes, block hashes <= 8", ["FuzzyHashData::store_into_bytes"], unwindset=alg_rules(n_insert=10))
+    for (st, en) in [(0, 2), (3, 6), (29, 31)]:
+        tqq = tq if (st, en) == (3, 6) else ("thorough",)
+        c14("gen_step_%d_%d" % (st, en), M_GEN, "c01_step_%d_%d" % (st, en), cfg, tqq, (900, 2400), 400,
+            "generator inductive step, active range [%d,%d)" % (st, en), GEN_ENC,
+            gen={"kind": "c01_step", "st": st, "en": en})
+        c14("gen_two_%d_%d" % (st, en), M_GEN, "c03_two_slice_%d_%d" % (st, en), cfg, ("thorough",), (900, 3000), 800,
+            "generator two-byte slice step, active range [%d,%d)" % (st, en), GEN_ENC,
+            gen={"kind": "c03_two_slice", "st": st, "en": en})
+    c14("gen_digest_3_6", M_GEN, "c01_digest_trunc_3_6", cfg, ("thorough",), (900, 2400), 400,
+        "generator digest, active range [3,6)", ["Generator::finalize_raw_internal"],
+        gen={"kind": "c01_digest_trunc", "st": 3, "en": 6})
+    c14("ooc_new_from_internals", M_HASH, "c11_ooc_new_from_internals_short_norm", cfg, ("thorough",), (600, 1800), 150,
+        "constructor out of contract: returned => valid", ["FuzzyHashData::new_from_internals"], only_tag="VERIF_TAG")
